@@ -1579,4 +1579,633 @@ theorem ag_sh_range (hG : ValidGrp G) (t : Nat) (pin : PartyIn) (x : Nat) :
   have h4 : ¬ G.q.natAbs ≤ (shB G t pin x).natAbs := by unfold shB; omega
   exact ⟨by simp [absGe, h3], by simp [absGe, h4], h1, h2⟩
 
+/-! ### (7) the step functions of a party that follows the protocol -/
+
+/-- the state after step 1(a), as far as the later steps look at it -/
+structure Dealt (G : Grp) (n t i : Nat) (pin : PartyIn) (st : GenSt) : Prop where
+  hn : st.n = n
+  ht : st.t = t
+  hi : st.i = i
+  sfb : st.sfb = false
+  C : st.C = (zeroRows n t).set i (comOf G t pin)
+  s : st.s = (zeros n).set i (shA G t pin i)
+  sp : st.sp = (zeros n).set i (shB G t pin i)
+  srow : st.srow = (List.range n).map (shA G t pin)
+  sprow : st.sprow = (List.range n).map (shB G t pin)
+
+theorem ag_genDeal_honest (hG : ValidGrp G) (n t i : Nat) (pin : PartyIn) (hc : goodCoins G t pin) (hi : i < n) :
+    ∃ st, genDeal G n t i false pin.strong pin.weak =
+        .ok (st, (comOf G t pin).map (Op.bc none) ++ ((List.range n).filter (· ≠ i)).flatMap
+          (fun j => [Op.pv j (getI st.srow j), Op.pv j (getI st.sprow j)]), .run) ∧
+      Dealt G n t i pin st := by
+  obtain ⟨ha, hb, hla, hlb⟩ := ag_coef_range (G := G) t pin hc
+  obtain ⟨ga, hb', h1, h2, h3⟩ := ag_ga_hb_commit hG (coefA t pin) (coefB t pin) (hla.trans hlb.symm) ha hb
+  have hcom := (ag_comOf_spec hG t pin hc).1
+  rw [h3] at hcom
+  injection hcom with hcom
+  have hlen : ¬ pin.strong.length < 2 * (t + 1) := by
+    have := hc.1
+    omega
+  unfold coefA at h1
+  unfold coefB at h2
+  unfold genDeal
+  simp only [hlen, if_false, h1, h2, bind, Except.bind, pure, Except.pure, hcom]
+  refine ⟨_, rfl, ?_⟩
+  constructor <;> simp [shA, shB, coefA, coefB, ag_getI_map_range _ _ i hi]
+
+theorem ag_pvs_sends (L : List Nat) (hL : L.Nodup) (i' : Nat) (a b : Nat → Int) :
+    ((pvs (L.flatMap (fun j => [Op.pv j (a j), Op.pv j (b j)]))).filter (fun e => e.1 == i')).map (·.2) =
+      if i' ∈ L then [a i', b i'] else [] := by
+  induction L with
+  | nil => simp [pvs]
+  | cons j L ih =>
+    have hnd := List.nodup_cons.mp hL
+    simp only [List.flatMap_cons, List.cons_append, List.nil_append, pvs]
+    by_cases hj : j = i'
+    · subst hj
+      simp [ih hnd.2, hnd.1]
+    · have hj' : ¬ i' = j := fun e => hj e.symm
+      simp [ih hnd.2, hj, hj']
+
+theorem ag_bcs_sends (L : List Nat) (a b : Nat → Int) :
+    bcs (L.flatMap (fun j => [Op.pv j (a j), Op.pv j (b j)])) = [] := by
+  induction L with
+  | nil => simp [bcs]
+  | cons j L ih => simp [List.flatMap_cons, bcs, ih]
+
+/-- step 1(b) for a party whose stored shares are in range -/
+theorem ag_genVerify_spec (hG : ValidGrp G) (st : GenSt) (I : Inbox) (hb : I.b.length = st.n)
+    (hp : I.p.length = st.n) (hC : st.C.length = st.n) (hs : st.s.length = st.n) (hsp : st.sp.length = st.n)
+    (hsr : InR G.q st.s) (hspr : InR G.q st.sp) :
+    ∃ (st' : GenSt) (I' : Inbox) (D : List Nat), genVerify G st I =
+        .ok (st', I', D.map (fun (j : Nat) => Op.bc none (j : Int)) ++ [Op.bc none (st.n : Int)], .run) ∧
+      st'.n = st.n ∧ st'.t = st.t ∧ st'.i = st.i ∧ st'.sfb = st.sfb ∧ st'.srow = st.srow ∧ st'.sprow = st.sprow ∧
+      D.Nodup ∧ (∀ x ∈ D, x < st.n) ∧
+      st'.cnt = (List.range st.n).map (fun j => if D.contains j then 1 else 0) ∧
+      I'.b.length = st.n ∧ st'.C.length = st.n ∧
+      (∀ k, k < st.n → k ≠ st.i →
+        bsOf I' k = (reS G none (st.t + 1) (bsOf I k) [] false).2.1 ∧
+        getRow st'.C k = padRow st.t (reS G none (st.t + 1) (bsOf I k) [] false).2.2) ∧
+      bsOf I' st.i = bsOf I st.i ∧ getRow st'.C st.i = getRow st.C st.i ∧
+      (∀ k v w a l, k < st.n → k ≠ st.i → (reS G none (st.t + 1) (bsOf I k) [] false).1 = false →
+        psOf I k = [v, w] → absGe v G.q = false → absGe w G.q = false → pedS G v w = .ok (a, l) →
+        commitProd G.p (st.i + 1) (padRow st.t (reS G none (st.t + 1) (bsOf I k) [] false).2.2) = .ok l →
+        k ∉ D) ∧
+      (∀ a l, pedS G (getI st.s st.i) (getI st.sp st.i) = .ok (a, l) →
+        commitProd G.p (st.i + 1) (getRow st.C st.i) = .ok l → st.i ∉ D) := by
+  have hq : 0 < G.q := hG.vg.q_pos
+  have hIb : ∀ j ∈ List.range st.n, j < I.b.length := fun j hj => by rw [hb]; exact List.mem_range.mp hj
+  obtain ⟨g1, g2, g3⟩ := ag_genReadC_glob (G := G) st (List.range st.n) I hIb st.C []
+  rcases h1 : genReadC G st (List.range st.n) I st.C [] with ⟨I1, C, cm1⟩
+  rw [h1] at g1 g2 g3
+  simp only at g1 g2 g3
+  have hIp : ∀ j ∈ List.range st.n, j < I1.p.length := fun j hj => by
+    rw [g2, hp]; exact List.mem_range.mp hj
+  obtain ⟨k1, k2, k3, k4, k5⟩ := ag_genReadShares_glob G.q hq st (List.range st.n) I1 hIp st.s st.sp cm1
+  rcases h2 : genReadShares G.q st (List.range st.n) I1 st.s st.sp cm1 with ⟨I2, s, sp, cm2⟩
+  rw [h2] at k1 k2 k3 k4 k5
+  simp only at k1 k2 k3 k4 k5
+  obtain ⟨gs, cm3, h3, hm3⟩ := ag_genCheck4 hG st C s sp (k4 hsr) (k5 hspr) (List.range st.n) st.gs cm2
+  refine ⟨{ st with C := C, s := s, sp := sp, gs := gs, cnt := (List.range st.n).map (fun j => if (sortUniq st.n cm3).contains j then 1 else 0), compl := [] },
+    I2, sortUniq st.n cm3, ?_, rfl, rfl, rfl, rfl, rfl, rfl, ag_sortUniq_nodup _ _,
+    fun x hx => ((ag_mem_sortUniq _ _ _).mp hx).1, rfl, ?_, ?_, ?_, ?_, ?_, ?_, ?_⟩
+  · unfold genVerify
+    simp only [h1, h2, h3, bind, Except.bind, pure, Except.pure]
+  · rw [show I2.b = I1.b from k1, g1, hb]
+  · exact g3.trans hC
+  · intro k hk hki
+    have := ag_genReadC_hit (G := G) st k (List.range st.n) List.nodup_range I hIb st.C []
+      (List.mem_range.mpr hk) hki
+    rw [h1] at this
+    obtain ⟨t1, t2, -⟩ := this
+    refine ⟨?_, t2 (by rw [hC]; exact hk)⟩
+    show I2.b.getD k [] = _
+    rw [k1]
+    exact t1
+  · have := ag_genReadC_frame (G := G) st st.i (List.range st.n) I hIb st.C [] (Or.inr rfl)
+    rw [h1] at this
+    show I2.b.getD st.i [] = _
+    rw [k1]
+    exact this.1
+  · have := ag_genReadC_frame (G := G) st st.i (List.range st.n) I hIb st.C [] (Or.inr rfl)
+    rw [h1] at this
+    exact this.2.1
+  · intro k v w a l hk hki hre hps hv hw hped hcp hkD
+    have hkm := ((ag_mem_sortUniq _ _ _).mp hkD).2
+    have c1 := ag_genReadC_hit (G := G) st k (List.range st.n) List.nodup_range I hIb st.C []
+      (List.mem_range.mpr hk) hki
+    rw [h1] at c1
+    obtain ⟨-, c12, c13⟩ := c1
+    simp only at c12 c13
+    have hps1 : psOf I1 k = [v, w] := by
+      show I1.p.getD k [] = _
+      rw [g2]
+      exact hps
+    have c2 := ag_genReadShares_hit G.q st k (List.range st.n) List.nodup_range I1 hIp st.s st.sp cm1
+      (List.mem_range.mpr hk) hki v w hps1 hv hw (by rw [hs]; exact hk) (by rw [hsp]; exact hk)
+    rw [h2] at c2
+    obtain ⟨c21, c22, c23⟩ := c2
+    simp only at c21 c22 c23
+    rcases (hm3 k).mp hkm with h | ⟨-, h⟩
+    · rw [c23, c13] at h
+      simp [hre] at h
+    · simp [chk4, c21, c22, hped, c12 (by rw [hC]; exact hk), hcp] at h
+  · intro a l hped hcp hkD
+    have hkm := ((ag_mem_sortUniq _ _ _).mp hkD).2
+    have c1 := ag_genReadC_frame (G := G) st st.i (List.range st.n) I hIb st.C [] (Or.inr rfl)
+    rw [h1] at c1
+    obtain ⟨-, c12, c13⟩ := c1
+    simp only at c12 c13
+    have c2 := ag_genReadShares_frame G.q st st.i (List.range st.n) I1 hIp st.s st.sp cm1 (Or.inr rfl)
+    rw [h2] at c2
+    obtain ⟨c21, c22, c23⟩ := c2
+    simp only at c21 c22 c23
+    rcases (hm3 st.i).mp hkm with h | ⟨-, h⟩
+    · rw [c23, c13] at h
+      simp at h
+    · simp [chk4, c21, c22, hped, c12, hcp] at h
+
+/-- step 1(c) -/
+theorem ag_genCollect_spec (st : GenSt) (I : Inbox) (hb : I.b.length = st.n) (hcnt : st.cnt.length = st.n) :
+    ∃ (st' : GenSt) (I' : Inbox) (cfs : List Nat), genCollect st I =
+        (st', I', (if getN st'.cnt st.i > 0 then cfs.flatMap (fun (it : Nat) =>
+            [Op.bc none (it : Int), Op.bc none (getI st.srow it), Op.bc none (getI st.sprow it)]) else []) ++
+          [Op.bc none (st.n : Int)], .run) ∧
+      st'.n = st.n ∧ st'.t = st.t ∧ st'.i = st.i ∧ st'.C = st.C ∧ st'.sfb = st.sfb ∧
+      cfs.length ≤ st.n ∧ (∀ x ∈ cfs, x < st.n) ∧ I'.b.length = st.n ∧ st'.cnt.length = st.n ∧
+      (∀ k, k < st.n → k ≠ st.i → bsOf I' k = rcRest st.n (bsOf I k)) ∧
+      (∀ w, w < st.n → getN st'.cnt w = getN st.cnt w +
+        (((List.range st.n).filter (fun x => x ≠ st.i)).map (fun x => (rcNews st.n (bsOf I x)).count w)).sum) ∧
+      (∀ k, k ∈ st'.compl ↔ k < st.n ∧ k ≠ st.i ∧ rcBad st.n (bsOf I k) = true) := by
+  have hIb : ∀ j ∈ List.range st.n, j < I.b.length := fun j hj => by rw [hb]; exact List.mem_range.mp hj
+  obtain ⟨g1, g2, g3⟩ := ag_genCollectGo_glob st (List.range st.n) I hIb st.cnt [] []
+  have hcn := fun w (hw : w < st.n) => ag_genCollectGo_cnt st (List.range st.n) List.nodup_range I hIb st.cnt [] [] w
+    (by rw [hcnt]; exact hw)
+  have hhit := fun k (hk : k < st.n) (hki : k ≠ st.i) => ag_genCollectGo_hit st k (List.range st.n)
+    List.nodup_range I hIb st.cnt [] [] (List.mem_range.mpr hk) hki
+  have hfr := fun k (hk : k ∉ List.range st.n ∨ k = st.i) => ag_genCollectGo_frame st k (List.range st.n) I hIb
+    st.cnt [] [] hk
+  rcases h1 : genCollectGo st (List.range st.n) I st.cnt [] [] with ⟨I1, cnt, cf, cm⟩
+  rw [h1] at g1 g2 g3 hcn hhit hfr
+  simp only at g1 g2 g3 hcn hhit hfr
+  refine ⟨{ st with cnt := cnt, cfrom := sortUniq st.n cf, compl := cm }, I1, sortUniq st.n cf, ?_, rfl, rfl, rfl,
+    rfl, rfl, ag_sortUniq_length _ _, fun x hx => ((ag_mem_sortUniq _ _ _).mp hx).1, g1.trans hb,
+    g3.trans hcnt, fun k hk hki => (hhit k hk hki).1, hcn, ?_⟩
+  · unfold genCollect
+    simp only [h1]
+  · intro k
+    show k ∈ cm ↔ _
+    by_cases hk : k < st.n
+    · by_cases hki : k = st.i
+      · have := (hfr k (Or.inr hki)).2
+        rw [this]
+        simp [hki]
+      · have := (hhit k hk hki).2
+        simp [this, hk, hki]
+    · have := (hfr k (Or.inl (by simpa using hk))).2
+      simp [this, hk]
+
+/-- steps 1(d) and 2: the set QUAL -/
+theorem ag_genResolve_spec (hG : ValidGrp G) (st : GenSt) (I : Inbox) (hb : I.b.length = st.n) :
+    ∃ (st' : GenSt) (I' : Inbox) (ops : List Op) (status : Status),
+      genResolve G st I = .ok (st', I', ops, status) ∧
+      ∀ k, k ∈ st'.qual ↔ k < st.n ∧ ¬ (k ∈ st.compl ∨ st.t < getN st.cnt k ∨
+        (k ≠ st.i ∧ raBad G st.n (getRow st.C k) (bsOf I k) = true)) := by
+  have hIb : ∀ j ∈ List.range st.n, j < I.b.length := fun j hj => by rw [hb]; exact List.mem_range.mp hj
+  obtain ⟨I1, s, sp, cm, h1, hm⟩ := ag_genResolveGo hG st (List.range st.n) List.nodup_range I hIb st.s st.sp st.compl
+  have hq : ∀ k, k ∈ (List.range st.n).filter (fun j => !cm.contains j) ↔ k < st.n ∧ ¬ (k ∈ st.compl ∨
+      st.t < getN st.cnt k ∨ (k ≠ st.i ∧ raBad G st.n (getRow st.C k) (bsOf I k) = true)) := by
+    intro k
+    simp only [List.mem_filter, List.mem_range, Bool.not_eq_true', List.contains_eq_mem,
+      decide_eq_false_iff_not, hm k]
+    constructor
+    · rintro ⟨hk, h⟩
+      refine ⟨hk, fun h2 => h ?_⟩
+      rcases h2 with h2 | h2 | h2
+      · exact Or.inl h2
+      · exact Or.inr ⟨hk, Or.inl h2⟩
+      · exact Or.inr ⟨hk, Or.inr h2⟩
+    · rintro ⟨hk, h⟩
+      refine ⟨hk, fun h2 => h ?_⟩
+      rcases h2 with h2 | ⟨-, h2 | h2⟩
+      · exact Or.inl h2
+      · exact Or.inr (Or.inl h2)
+      · exact Or.inr (Or.inr h2)
+  unfold genResolve
+  simp only [h1, bind, Except.bind, pure, Except.pure]
+  split
+  · exact ⟨_, _, _, _, rfl, hq⟩
+  · split
+    · exact ⟨_, _, _, _, rfl, hq⟩
+    · split
+      · exact ⟨_, _, _, _, rfl, hq⟩
+      · exact ⟨_, _, _, _, rfl, hq⟩
+
+/-! ### (8) one round of a party that follows the protocol -/
+
+theorem ag_rcS_nodup (n : Nat) (f it : Nat) (dup : List Nat) (s : List (Tag × Int)) :
+    (rcS n f it dup s).1.Nodup ∧ ∀ x ∈ (rcS n f it dup s).1, x ∉ dup := by
+  induction f generalizing it dup s with
+  | zero => simp [rcS]
+  | succ f ih =>
+    unfold rcS
+    rcases popS none s with ⟨_ | v, s1⟩
+    · simp
+    · simp only
+      split
+      · rename_i h1
+        split
+        · obtain ⟨i1, i2⟩ := ih (it + 1) (dup ++ [getUi v]) s1
+          simp only [List.nodup_cons, List.mem_cons]
+          refine ⟨⟨fun hm => ?_, i1⟩, ?_⟩
+          · have := i2 _ hm
+            simp at this
+          · rintro x (rfl | hx)
+            · simpa using h1.2
+            · have := i2 x hx
+              simp only [List.mem_append, not_or] at this
+              exact this.1
+        · simp only [List.nodup_cons, List.not_mem_nil, not_false_eq_true, List.nodup_nil, and_self,
+            List.mem_singleton, true_and]
+          rintro x rfl
+          simpa using h1.2
+      · split
+        · split
+          · exact ih (it + 1) dup s1
+          · simp
+        · simp
+
+theorem ag_rcNews_count_le (n : Nat) (s : List (Tag × Int)) (w : Nat) : (rcNews n s).count w ≤ 1 :=
+  List.nodup_iff_count_le_one.mp (ag_rcS_nodup n (n + 1) 0 [] s).1 w
+
+/-- a live party that follows the protocol takes its step; what it holds after the deliveries -/
+theorem ag_honest_round {σ} (steps : Nat → Step σ) (R : List (Party σ)) (i : Nat) (P : Party σ)
+    (hP : R[i]? = some P) (hl : HL P) (st : σ) (I : Inbox) (ops : List Op) (status : Status)
+    (hs : steps i P.st P.inbox = .ok (st, I, ops, status)) :
+    outOf steps R i = (bcs ops, pvs ops) ∧
+    ∃ P', (runRound steps R)[i]? = some P' ∧ P'.st = st ∧ P'.status = status ∧ P'.err = none ∧
+      P'.dev = P.dev ∧ P'.fs.dead = false ∧ P'.inbox.b.length = I.b.length ∧ P'.inbox.p.length = I.p.length ∧
+      (∀ k, k < I.b.length → bsOf P'.inbox k = bsOf I k ++ (if k = i then [] else (outOf steps R k).1)) ∧
+      (∀ k, k < I.p.length → psOf P'.inbox k = psOf I k ++
+        (if k = i then [] else ((outOf steps R k).2.filter (fun e => e.1 == i)).map (·.2))) := by
+  obtain ⟨fs, hfs, hsp⟩ := ag_stepParty_honest R.length (steps i) P hl st I ops status hs
+  obtain ⟨P', hP', hd⟩ := ag_runRound_party steps R i P hP
+  rw [hsp] at hd
+  refine ⟨by simp [outOf, hP, hsp], P', hP', hd.st, hd.status, ?_, hd.dev, ?_, hd.blen, hd.plen, hd.b, ?_⟩
+  · rw [hd.err]; exact hl.2.2.1
+  · rw [hd.fs]; exact hfs
+  · intro k hk
+    exact hd.p k hk (ag_honest_unpack P.dev hl.1).2.2.2.1
+
+/-! ### (9) the run: initial parties, the honest parties -/
+
+theorem ag_mem_honestIdx (ins : List PartyIn) (i : Nat) :
+    i ∈ honestIdx ins ↔ i < ins.length ∧ (pinOf ins i).dev1.honest = true := by
+  simp [honestIdx, pinOf, List.mem_filter]
+
+/-- the parties before round 0 -/
+def ps0 (n t : Nat) (ins : List PartyIn) : List (Party GenSt) :=
+  (List.range n).zip ins |>.map (fun (i, pin) =>
+    { dev := pin.dev1, piCnt := List.replicate n 0, inbox := Inbox.empty n,
+      st := { n := n, t := t, i := i, sfb := pin.dev1.sfb } })
+
+theorem ag_runGen_eq (n t : Nat) (ins : List PartyIn) :
+    runGen G n t ins = runRounds (genStep G ins n t) (List.range (6 + t + 1)) (ps0 n t ins) := rfl
+
+theorem ag_ps0_length (n t : Nat) (ins : List PartyIn) (hn : ins.length = n) : (ps0 n t ins).length = n := by
+  simp [ps0, hn]
+
+theorem ag_ps0_getElem? (n t : Nat) (ins : List PartyIn) (hn : ins.length = n) (i : Nat) (hi : i < n) :
+    (ps0 n t ins)[i]? = some { dev := (pinOf ins i).dev1, piCnt := List.replicate n 0, inbox := Inbox.empty n, st := { n := n, t := t, i := i, sfb := (pinOf ins i).dev1.sfb } } := by
+  have h := ag_zipRange_getElem? ins 0 i
+  rw [← List.range_eq_range', hn] at h
+  unfold ps0
+  rw [List.getElem?_map, h]
+  have hi' : i < ins.length := by omega
+  simp [pinOf, List.getElem?_eq_getElem hi']
+
+/-- the hypotheses of the agreement theorems -/
+structure Setting (G : Grp) (n t : Nat) (ins : List PartyIn) : Prop where
+  hG : ValidGrp G
+  hn : ins.length = n
+  hc : ∀ i ∈ honestIdx ins, goodCoins G t (pinOf ins i)
+
+/-- agreement of two honest parties on the unread values of every third sender -/
+def Ag (n : Nat) (ins : List PartyIn) (R : List (Party GenSt)) : Prop :=
+  ∀ i i' P P', i ∈ honestIdx ins → i' ∈ honestIdx ins → R[i]? = some P → R[i']? = some P' →
+    ∀ k, k < n → k ≠ i → k ≠ i' → bsOf P.inbox k = bsOf P'.inbox k
+
+/-- after round 0 -/
+structure S1 (G : Grp) (n t : Nat) (ins : List PartyIn) (i : Nat) (P : Party GenSt) : Prop where
+  hl : HL P
+  dealt : Dealt G n t i (pinOf ins i) P.st
+  blen : P.inbox.b.length = n
+  plen : P.inbox.p.length = n
+  fromH : ∀ j, j ∈ honestIdx ins → j ≠ i →
+    bsOf P.inbox j = (comOf G t (pinOf ins j)).map (fun v => ((none : Tag), v)) ∧
+    psOf P.inbox j = [shA G t (pinOf ins j) i, shB G t (pinOf ins j) i]
+
+def Inv1 (G : Grp) (n t : Nat) (ins : List PartyIn) (R : List (Party GenSt)) : Prop :=
+  R.length = n ∧ (∀ i, i ∈ honestIdx ins → ∃ P, R[i]? = some P ∧ S1 G n t ins i P) ∧ Ag n ins R
+
+theorem ag_bsOf_empty (n k : Nat) : bsOf (Inbox.empty n) k = [] := by
+  unfold bsOf Inbox.empty
+  simp only [List.getD_eq_getElem?_getD, List.getElem?_replicate]
+  split <;> rfl
+
+theorem ag_psOf_empty (n k : Nat) : psOf (Inbox.empty n) k = [] := by
+  unfold psOf Inbox.empty
+  simp only [List.getD_eq_getElem?_getD, List.getElem?_replicate]
+  split <;> rfl
+
+theorem ag_round0 (S : Setting G n t ins) : Inv1 G n t ins (runRound (genStep G ins n t 0) (ps0 n t ins)) := by
+  have hstep : ∀ i, i ∈ honestIdx ins → ∃ P st,
+      (ps0 n t ins)[i]? = some P ∧ HL P ∧ P.inbox = Inbox.empty n ∧ Dealt G n t i (pinOf ins i) st ∧
+      genStep G ins n t 0 i P.st P.inbox = .ok (st, Inbox.empty n,
+        (comOf G t (pinOf ins i)).map (Op.bc none) ++ ((List.range n).filter (· ≠ i)).flatMap
+          (fun j => [Op.pv j (getI st.srow j), Op.pv j (getI st.sprow j)]), .run) := by
+    intro i hi
+    obtain ⟨hi1, hi2⟩ := (ag_mem_honestIdx ins i).mp hi
+    rw [S.hn] at hi1
+    obtain ⟨st, hst, hd⟩ := ag_genDeal_honest S.hG n t i (pinOf ins i) (S.hc i hi) hi1
+    refine ⟨_, st, ag_ps0_getElem? n t ins S.hn i hi1, ⟨hi2, rfl, rfl, rfl⟩, rfl, hd, ?_⟩
+    have hsfb := (ag_honest_unpack _ hi2).1
+    simp only [genStep]
+    show (do
+      let (st1, ops, s) ← genDeal G n t i (pinOf ins i).dev1.sfb (pinOf ins i).strong (pinOf ins i).weak
+      pure (st1, Inbox.empty n, ops, s)) = _
+    rw [hsfb, hst]
+    rfl
+  refine ⟨by rw [ag_runRound_length, ag_ps0_length n t ins S.hn], ?_, ?_⟩
+  · intro i hi
+    obtain ⟨P, st, hP, hl, hI, hd, hs⟩ := hstep i hi
+    obtain ⟨-, P', hP', e1, e2, e3, e4, e5, e6, e7, e8, e9⟩ :=
+      ag_honest_round (genStep G ins n t 0) (ps0 n t ins) i P hP hl _ _ _ _ hs
+    have hbl : (Inbox.empty n).b.length = n := by simp [Inbox.empty]
+    have hpl : (Inbox.empty n).p.length = n := by simp [Inbox.empty]
+    refine ⟨P', hP', ⟨⟨by rw [e4]; exact hl.1, e5, e3, e2⟩, by rw [e1]; exact hd, e6.trans hbl, e7.trans hpl, ?_⟩⟩
+    intro j hj hji
+    obtain ⟨hj1, hj2⟩ := (ag_mem_honestIdx ins j).mp hj
+    rw [S.hn] at hj1
+    obtain ⟨hi1, -⟩ := (ag_mem_honestIdx ins i).mp hi
+    rw [S.hn] at hi1
+    obtain ⟨Pj, stj, hPj, hlj, hIj, hdj, hsj⟩ := hstep j hj
+    have hout := (ag_honest_round (genStep G ins n t 0) (ps0 n t ins) j Pj hPj hlj _ _ _ _ hsj).1
+    constructor
+    · rw [e8 j (by rw [hbl]; exact hj1), ag_bsOf_empty, hout]
+      simp [hji, ag_bcs_append, ag_bcs_map_bc, ag_bcs_sends]
+    · rw [e9 j (by rw [hpl]; exact hj1), ag_psOf_empty, hout]
+      simp only [hji, if_false, List.nil_append, ag_pvs_append, ag_pvs_map_bc]
+      rw [ag_pvs_sends _ (List.Nodup.filter _ List.nodup_range)]
+      have : i ∈ (List.range n).filter (· ≠ j) := by
+        simp [List.mem_filter, hi1, Ne.symm hji]
+      rw [if_pos this, hdj.srow, hdj.sprow, ag_getI_map_range _ _ i hi1, ag_getI_map_range _ _ i hi1]
+  · intro i i' P1 P1' hi hi' hP1 hP1' k hk hki hki'
+    obtain ⟨P, st, hP, hl, hI, hd, hs⟩ := hstep i hi
+    obtain ⟨-, P', hP', e1, e2, e3, e4, e5, e6, e7, e8, e9⟩ :=
+      ag_honest_round (genStep G ins n t 0) (ps0 n t ins) i P hP hl _ _ _ _ hs
+    obtain ⟨Q, stq, hQ, hlq, hIq, hdq, hsq⟩ := hstep i' hi'
+    obtain ⟨-, Q', hQ', f1, f2, f3, f4, f5, f6, f7, f8, f9⟩ :=
+      ag_honest_round (genStep G ins n t 0) (ps0 n t ins) i' Q hQ hlq _ _ _ _ hsq
+    rw [hP'] at hP1
+    rw [hQ'] at hP1'
+    injection hP1 with hP1
+    injection hP1' with hP1'
+    subst hP1 hP1'
+    have hbl : (Inbox.empty n).b.length = n := by simp [Inbox.empty]
+    rw [e8 k (by rw [hbl]; exact hk), f8 k (by rw [hbl]; exact hk)]
+    simp [hki, hki']
+
+/-! ### (10) round 1: the commitments, the shares, the complaints -/
+
+theorem ag_nodup_lt_length (n : Nat) (D : List Nat) (hnd : D.Nodup) (hD : ∀ x ∈ D, x < n) : D.length ≤ n := by
+  have h : D ⊆ List.range n := fun x hx => List.mem_range.mpr (hD x hx)
+  have := (List.Nodup.subperm hnd h).length_le
+  simpa using this
+
+theorem ag_bcs_map_nat (D : List Nat) (n : Nat) :
+    bcs (D.map (fun (j : Nat) => Op.bc none (j : Int)) ++ [Op.bc none (n : Int)]) =
+      D.map (fun (j : Nat) => ((none : Tag), (j : Int))) ++ [((none : Tag), (n : Int))] := by
+  induction D with
+  | nil => rfl
+  | cons x D ih => simp only [List.map_cons, List.cons_append, bcs, ih]
+
+theorem ag_padRow_full (t : Nat) (l : List Int) (h : l.length = t + 1) : padRow t l = l := by
+  simp [padRow, h, zeros]
+
+theorem ag_InR_zeros_set (q : Int) (hq : 0 < q) (n i : Nat) (v : Int) (hv : v.natAbs < q.natAbs) :
+    InR q ((zeros n).set i v) := by
+  apply ag_InR_set _ _ _ _ _ hv
+  intro x hx
+  simp only [zeros, List.mem_replicate] at hx
+  rw [hx.2]
+  simp; omega
+
+theorem ag_count_indicator (D : List Nat) (hnd : D.Nodup) (w : Nat) :
+    D.count w = if D.contains w then 1 else 0 := by
+  by_cases h : w ∈ D
+  · simp [h, List.count_eq_one_of_mem hnd h]
+  · simp [h, List.count_eq_zero_of_not_mem h]
+
+/-- step 1(b) of an honest party in the state reached after round 0 -/
+theorem ag_verify_honest (S : Setting G n t ins) (i : Nat) (hi : i ∈ honestIdx ins) (P : Party GenSt)
+    (h1 : S1 G n t ins i P) :
+    ∃ (st' : GenSt) (I' : Inbox) (D : List Nat), genStep G ins n t 1 i P.st P.inbox =
+        .ok (st', I', D.map (fun (j : Nat) => Op.bc none (j : Int)) ++ [Op.bc none (n : Int)], .run) ∧
+      st'.n = n ∧ st'.t = t ∧ st'.i = i ∧
+      st'.srow = (List.range n).map (shA G t (pinOf ins i)) ∧
+      st'.sprow = (List.range n).map (shB G t (pinOf ins i)) ∧
+      D.Nodup ∧ (∀ x ∈ D, x < n) ∧
+      st'.cnt = (List.range n).map (fun j => if D.contains j then 1 else 0) ∧
+      I'.b.length = n ∧ I'.p.length = I'.p.length ∧
+      (∀ k, k < n → k ≠ i →
+        bsOf I' k = (reS G none (t + 1) (bsOf P.inbox k) [] false).2.1 ∧
+        getRow st'.C k = padRow t (reS G none (t + 1) (bsOf P.inbox k) [] false).2.2) ∧
+      (∀ j, j ∈ honestIdx ins → getRow st'.C j = comOf G t (pinOf ins j) ∧ j ∉ D) ∧
+      (∀ j, j ∈ honestIdx ins → j ≠ i → bsOf I' j = []) := by
+  have hG := S.hG
+  have : Fact (Nat.Prime G.q.natAbs) := fact_q hG
+  have hq : 0 < G.q := hG.vg.q_pos
+  obtain ⟨hi1, -⟩ := (ag_mem_honestIdx ins i).mp hi
+  rw [S.hn] at hi1
+  have hd := h1.dealt
+  have hshare : ∀ j, j ∈ honestIdx ins → ∃ a l, pedS G (shA G t (pinOf ins j) i) (shB G t (pinOf ins j) i) = .ok (a, l) ∧
+      commitProd G.p (i + 1) (comOf G t (pinOf ins j)) = .ok l := by
+    intro j hj
+    obtain ⟨ha, hb, hla, hlb⟩ := ag_coef_range (G := G) t (pinOf ins j) (S.hc j hj)
+    obtain ⟨ga, l, r, e1, e2, e3⟩ := share_check hG _ _ (hla.trans hlb.symm) ha hb _
+      (ag_comOf_spec hG t (pinOf ins j) (S.hc j hj)).1 (i + 1)
+    exact ⟨ga, l, e1, by rw [e2, e3]⟩
+  obtain ⟨st', I', D, hv, v1, v2, v3, v4, v5, v6, v7, v8, v9, v10, v11, v12, v13, v14, v15, v16⟩ :=
+    ag_genVerify_spec hG P.st P.inbox (by rw [h1.blen, hd.hn]) (by rw [h1.plen, hd.hn])
+      (by rw [hd.C, hd.hn]; simp [zeroRows]) (by rw [hd.s, hd.hn]; simp [zeros]) (by rw [hd.sp, hd.hn]; simp [zeros])
+      (by rw [hd.s]; exact ag_InR_zeros_set G.q hq n i _ (ag_sh_range hG t _ i).2.2.1)
+      (by rw [hd.sp]; exact ag_InR_zeros_set G.q hq n i _ (ag_sh_range hG t _ i).2.2.2)
+  simp only [hd.hn, hd.ht, hd.hi] at hv v1 v2 v3 v8 v9 v10 v11 v12 v13 v14 v15 v16
+  have hrow : ∀ j, j ∈ honestIdx ins → j ≠ i →
+      reS G none (t + 1) (bsOf P.inbox j) [] false = (false, [], comOf G t (pinOf ins j)) := by
+    intro j hj hji
+    obtain ⟨c1, c2, c3⟩ := ag_comOf_spec hG t (pinOf ins j) (S.hc j hj)
+    rw [(h1.fromH j hj hji).1, ← c2]
+    have := ag_reS_honest (G := G) (comOf G t (pinOf ins j)) c3 [] [] false
+    simpa using this
+  have hnotD : ∀ j, j ∈ honestIdx ins → j ∉ D := by
+    intro j hj
+    obtain ⟨hj1, -⟩ := (ag_mem_honestIdx ins j).mp hj
+    rw [S.hn] at hj1
+    obtain ⟨a, l, e1, e2⟩ := hshare j hj
+    by_cases hji : j = i
+    · subst hji
+      refine v16 a l ?_ ?_
+      · rw [hd.s, hd.sp, ag_getI_set, ag_getI_set]
+        simpa [zeros, hj1] using e1
+      · rw [hd.C, ag_getRow_set]
+        simpa [zeroRows, hj1] using e2
+    · have hr := hrow j hj hji
+      refine v15 j _ _ a l hj1 hji (by rw [hr]) (h1.fromH j hj hji).2 (ag_sh_range hG t _ i).1
+        (ag_sh_range hG t _ i).2.1 e1 ?_
+      rw [hr, ag_padRow_full t _ (ag_comOf_spec hG t (pinOf ins j) (S.hc j hj)).2.1]
+      exact e2
+  refine ⟨st', I', D, hv, v1, v2, v3, by rw [v5, hd.srow], by rw [v6, hd.sprow], v7, v8, v9, v10, rfl,
+    v12, ?_, ?_⟩
+  · intro j hj
+    refine ⟨?_, hnotD j hj⟩
+    obtain ⟨hj1, -⟩ := (ag_mem_honestIdx ins j).mp hj
+    rw [S.hn] at hj1
+    by_cases hji : j = i
+    · subst hji
+      rw [v14, hd.C, ag_getRow_set]
+      simp [zeroRows, hj1]
+    · rw [(v12 j hj1 hji).2, hrow j hj hji, ag_padRow_full t _ (ag_comOf_spec hG t (pinOf ins j) (S.hc j hj)).2.1]
+  · intro j hj hji
+    obtain ⟨hj1, -⟩ := (ag_mem_honestIdx ins j).mp hj
+    rw [S.hn] at hj1
+    rw [(v12 j hj1 hji).1, hrow j hj hji]
+
+/-- after round 1 -/
+structure S2 (G : Grp) (n t : Nat) (ins : List PartyIn) (i : Nat) (P : Party GenSt) : Prop where
+  hl : HL P
+  hn : P.st.n = n
+  ht : P.st.t = t
+  hi : P.st.i = i
+  srow : P.st.srow = (List.range n).map (shA G t (pinOf ins i))
+  sprow : P.st.sprow = (List.range n).map (shB G t (pinOf ins i))
+  blen : P.inbox.b.length = n
+  clen : P.st.cnt.length = n
+  CH : ∀ j, j ∈ honestIdx ins → getRow P.st.C j = comOf G t (pinOf ins j) ∧ getN P.st.cnt j = 0
+
+/-- two honest parties after round 1: the commitments of third parties agree, and the complaint
+    list `i` broadcast is read by `i'` as the complaints `i` counted for itself -/
+def Cross2 (n : Nat) (i : Nat) (P P' : Party GenSt) : Prop :=
+  rcBad n (bsOf P'.inbox i) = false ∧ rcRest n (bsOf P'.inbox i) = [] ∧
+  ∀ w, w < n → (rcNews n (bsOf P'.inbox i)).count w = getN P.st.cnt w
+
+def Inv2 (G : Grp) (n t : Nat) (ins : List PartyIn) (R : List (Party GenSt)) : Prop :=
+  R.length = n ∧ (∀ i, i ∈ honestIdx ins → ∃ P, R[i]? = some P ∧ S2 G n t ins i P) ∧ Ag n ins R ∧
+  (∀ i i' P P', i ∈ honestIdx ins → i' ∈ honestIdx ins → R[i]? = some P → R[i']? = some P' → i ≠ i' →
+    (∀ k, k < n → k ≠ i → k ≠ i' → getRow P.st.C k = getRow P'.st.C k) ∧ Cross2 n i P P')
+
+/-- round 1 for one honest party: its step and the party after the round -/
+theorem ag_round1_party (S : Setting G n t ins) (R : List (Party GenSt)) (h : Inv1 G n t ins R)
+    (i : Nat) (hi : i ∈ honestIdx ins) :
+    ∃ (P : Party GenSt) (st' : GenSt) (I' : Inbox) (D : List Nat) (P' : Party GenSt),
+    R[i]? = some P ∧ S1 G n t ins i P ∧
+    (runRound (genStep G ins n t 1) R)[i]? = some P' ∧
+    outOf (genStep G ins n t 1) R i =
+      (D.map (fun (j : Nat) => ((none : Tag), (j : Int))) ++ [((none : Tag), (n : Int))], []) ∧
+    P'.st = st' ∧ HL P' ∧ P'.inbox.b.length = n ∧
+    (∀ k, k < n → bsOf P'.inbox k = bsOf I' k ++
+      (if k = i then [] else (outOf (genStep G ins n t 1) R k).1)) ∧
+    st'.n = n ∧ st'.t = t ∧ st'.i = i ∧
+    st'.srow = (List.range n).map (shA G t (pinOf ins i)) ∧
+    st'.sprow = (List.range n).map (shB G t (pinOf ins i)) ∧
+    D.Nodup ∧ (∀ x ∈ D, x < n) ∧
+    st'.cnt = (List.range n).map (fun j => if D.contains j then 1 else 0) ∧
+    (∀ k, k < n → k ≠ i →
+      bsOf I' k = (reS G none (t + 1) (bsOf P.inbox k) [] false).2.1 ∧
+      getRow st'.C k = padRow t (reS G none (t + 1) (bsOf P.inbox k) [] false).2.2) ∧
+    (∀ j, j ∈ honestIdx ins → getRow st'.C j = comOf G t (pinOf ins j) ∧ j ∉ D) ∧
+    (∀ j, j ∈ honestIdx ins → j ≠ i → bsOf I' j = []) := by
+  obtain ⟨hlen, hS, hAg⟩ := h
+  obtain ⟨P, hP, h1⟩ := hS i hi
+  obtain ⟨st', I', D, hv, v1, v2, v3, v4, v5, v6, v7, v8, v9, -, v11, v12, v13⟩ := ag_verify_honest S i hi P h1
+  obtain ⟨hout, P', hP', e1, e2, e3, e4, e5, e6, e7, e8, e9⟩ :=
+    ag_honest_round (genStep G ins n t 1) R i P hP h1.hl _ _ _ _ hv
+  refine ⟨P, st', I', D, P', hP, h1, hP', ?_, e1, ⟨by rw [e4]; exact h1.hl.1, e5, e3, e2⟩, e6.trans v9,
+    fun k hk => e8 k (by rw [v9]; exact hk), v1, v2, v3, v4, v5, v6, v7, v8, v11, v12, v13⟩
+  rw [hout, ag_bcs_map_nat]
+  congr 1
+  rw [ag_pvs_append]
+  have : ∀ (L : List Nat), pvs (L.map (fun (j : Nat) => Op.bc none (j : Int))) = [] := by
+    intro L
+    induction L with
+    | nil => rfl
+    | cons x L ih => simp [pvs, ih]
+  simp [this, pvs]
+
+/-- round 1: the state of every honest party (no bound on `n` needed) -/
+theorem ag_round1_S2 (S : Setting G n t ins) (R : List (Party GenSt)) (h : Inv1 G n t ins R)
+    (i : Nat) (hi : i ∈ honestIdx ins) :
+    ∃ P, (runRound (genStep G ins n t 1) R)[i]? = some P ∧ S2 G n t ins i P := by
+  have hparty := ag_round1_party S R h
+  obtain ⟨P, st', I', D, P', hP, h1, hP', hout, e1, hl', bl, hb, v1, v2, v3, v4, v5, v6, v7, v8, v11, v12, v13⟩ :=
+    hparty i hi
+  refine ⟨P', hP', ⟨hl', by rw [e1]; exact v1, by rw [e1]; exact v2, by rw [e1]; exact v3,
+    by rw [e1]; exact v4, by rw [e1]; exact v5, bl, by rw [e1, v8]; simp, ?_⟩⟩
+  intro j hj
+  obtain ⟨hj1, -⟩ := (ag_mem_honestIdx ins j).mp hj
+  rw [S.hn] at hj1
+  rw [e1]
+  refine ⟨(v12 j hj).1, ?_⟩
+  rw [v8, ag_getN_map_range _ _ j hj1]
+  have := (v12 j hj).2
+  simp [this]
+
+theorem ag_round1 (S : Setting G n t ins) (hn64 : n < 2 ^ 64) (R : List (Party GenSt)) (h : Inv1 G n t ins R) :
+    Inv2 G n t ins (runRound (genStep G ins n t 1) R) := by
+  have hparty := ag_round1_party S R h
+  have hS2 := ag_round1_S2 S R h
+  obtain ⟨hlen, hS, hAg⟩ := h
+  refine ⟨by rw [ag_runRound_length, hlen], ?_, ?_, ?_⟩
+  · exact hS2
+  · intro i i' P1 P1' hi hi' hP1 hP1' k hk hki hki'
+    obtain ⟨P, st', I', D, P', hP, h1, hP', hout, e1, hl', bl, hb, v1, v2, v3, v4, v5, v6, v7, v8, v11, v12, v13⟩ :=
+      hparty i hi
+    obtain ⟨Q, stq, Iq, Dq, Q', hQ, hq1, hQ', houtq, f1, hlq', blq, hbq, w1, w2, w3, w4, w5, w6, w7, w8, w11, w12, w13⟩ :=
+      hparty i' hi'
+    rw [hP'] at hP1
+    rw [hQ'] at hP1'
+    injection hP1 with hP1
+    injection hP1' with hP1'
+    subst hP1 hP1'
+    rw [hb k hk, hbq k hk, (v11 k hk hki).1, (w11 k hk hki').1, hAg i i' P Q hi hi' hP hQ k hk hki hki']
+    simp [hki, hki']
+  · intro i i' P1 P1' hi hi' hP1 hP1' hne
+    obtain ⟨P, st', I', D, P', hP, h1, hP', hout, e1, hl', bl, hb, v1, v2, v3, v4, v5, v6, v7, v8, v11, v12, v13⟩ :=
+      hparty i hi
+    obtain ⟨Q, stq, Iq, Dq, Q', hQ, hq1, hQ', houtq, f1, hlq', blq, hbq, w1, w2, w3, w4, w5, w6, w7, w8, w11, w12, w13⟩ :=
+      hparty i' hi'
+    rw [hP'] at hP1
+    rw [hQ'] at hP1'
+    injection hP1 with hP1
+    injection hP1' with hP1'
+    subst hP1 hP1'
+    obtain ⟨hi1, -⟩ := (ag_mem_honestIdx ins i).mp hi
+    rw [S.hn] at hi1
+    constructor
+    · intro k hk hki hki'
+      rw [e1, f1, (v11 k hk hki).2, (w11 k hk hki').2, hAg i i' P Q hi hi' hP hQ k hk hki hki']
+    · have hstream : bsOf Q'.inbox i =
+          D.map (fun (j : Nat) => ((none : Tag), (j : Int))) ++ [((none : Tag), (n : Int))] := by
+        rw [hbq i hi1, w13 i hi hne, hout]
+        simp [hne]
+      have hrc := ag_rcS_honest n hn64 D (n + 1) 0 [] (by have := ag_nodup_lt_length n D v6 v7; omega)
+        (by have := ag_nodup_lt_length n D v6 v7; omega) v7 v6 (by simp)
+      refine ⟨?_, ?_, ?_⟩
+      · simp [rcBad, hstream, hrc]
+      · simp [rcRest, hstream, hrc]
+      · intro w hw
+        simp only [rcNews, hstream, hrc]
+        rw [e1, v8, ag_getN_map_range _ _ w hw, ag_count_indicator D v6 w]
+
 end Tmcg.DkgP
